@@ -32,6 +32,20 @@ pub trait Battery: Form + Clone + PartialEq + Debug + Send + Sync + 'static {
     const VALUE_BODY: bool = false;
     /// Printing and re-reading the type is another property's subject (C09 for `Value`).
     const SKIP_RECON_ROUNDTRIP: bool = false;
+    /// A collection / placement wrapper around another battery type (see the end of this file).
+    const WRAPPER: bool = false;
+    fn name() -> String {
+        Self::NAME.to_string()
+    }
+    fn covers() -> String {
+        Self::COVERS.to_string()
+    }
+    fn is_map_path(path: &str) -> bool {
+        Self::MAP_PATHS.contains(&path)
+    }
+    fn is_opaque_path(path: &str) -> bool {
+        Self::OPAQUE_PATHS.contains(&path)
+    }
     fn instances(p: &Pools) -> Vec<Self>;
     fn normal(&self) -> Self {
         self.clone()
@@ -289,6 +303,28 @@ pub struct HdrBodySlots {
     pub a: i32,
 }
 battery!(HdrBodySlots, "HdrBodySlots", "header_body + header", |p, out| { cart!(out; hb in p.i32s(), h in p.strings(), a in p.i32s(); HdrBodySlots { hb, h, a }); });
+
+#[derive(Form, Debug, PartialEq, Clone)]
+pub struct HdrBody2Slots {
+    #[form(header_body)]
+    pub hb: String,
+    #[form(header)]
+    pub h1: i32,
+    #[form(header)]
+    pub h2: Option<i32>,
+    pub a: bool,
+}
+battery!(HdrBody2Slots, "HdrBody2Slots", "header_body + 2 header slots (one optional)", |p, out| { cart!(out; hb in p.strings(), h1 in p.i32s(), h2 in p.opt_i32s(), a in p.bools(); HdrBody2Slots { hb, h1, h2, a }); });
+
+#[derive(Form, Debug, PartialEq, Clone)]
+pub struct HdrBodyAttr {
+    #[form(header_body)]
+    pub hb: i32,
+    #[form(attr)]
+    pub at: String,
+    pub a: i32,
+}
+battery!(HdrBodyAttr, "HdrBodyAttr", "header_body + attr", |p, out| { cart!(out; hb in p.i32s(), at in p.strings(), a in p.i32s(); HdrBodyAttr { hb, at, a }); });
 
 #[derive(Form, Debug, PartialEq, Clone)]
 pub struct HdrVec {
@@ -593,6 +629,18 @@ pub struct Tagged {
 battery!(Tagged, "Tagged", "tag taken from a field", |p, out| { cart!(out; lvl in [Level::Trace, Level::Error], h in p.i32s(), msg in p.strings(); Tagged { lvl, h, msg }); });
 
 #[derive(Form, Debug, PartialEq, Clone)]
+pub struct TaggedHb {
+    #[form(tag)]
+    pub lvl: Level,
+    #[form(header_body)]
+    pub hb: i32,
+    #[form(header)]
+    pub h: String,
+    pub msg: i32,
+}
+battery!(TaggedHb, "TaggedHb", "tag taken from a field + header_body + header slot", |p, out| { cart!(out; lvl in [Level::Trace, Level::Error], hb in p.i32s(), h in p.strings(), msg in p.i32s(); TaggedHb { lvl, hb, h, msg }); });
+
+#[derive(Form, Debug, PartialEq, Clone)]
 pub struct EnumHolder {
     pub e: E1,
     #[form(attr)]
@@ -868,5 +916,252 @@ impl Battery for Value {
         }
         let _ = p;
         v
+    }
+}
+
+// ------------------------------------------------------------------ collection / placement wrappers
+//
+// Every derived battery type T is additionally exercised as an *element*: recognizers of element
+// types are re-used (after `reset`) for the 2nd and later element of a Vec / value of a HashMap,
+// and one recognizer type is instantiated several times within one record.
+
+/// Element pool of a wrapper: the first three instances of T plus the last one.
+pub fn elems<T: Battery>(p: &Pools) -> Vec<T> {
+    p.inner::<T>(0, 3)
+}
+
+fn at<T: Clone>(e: &[T], i: usize) -> T {
+    e[i % e.len()].clone()
+}
+
+fn vec_pool<T: Clone>(e: &[T]) -> Vec<Vec<T>> {
+    vec![vec![], vec![at(e, 0)], vec![at(e, 0), at(e, 1)], vec![at(e, 1), at(e, 0), at(e, 2)], vec![at(e, 3), at(e, 3)]]
+}
+
+fn map_pool<T: Clone>(e: &[T]) -> Vec<HashMap<i32, T>> {
+    vec![
+        HashMap::new(),
+        [(1, at(e, 0)), (2, at(e, 1))].into_iter().collect(),
+        [(2, at(e, 0)), (1, at(e, 1)), (-3, at(e, 3))].into_iter().collect(),
+    ]
+}
+
+fn opt_pool<T: Clone>(e: &[T]) -> Vec<Option<T>> {
+    vec![None, Some(at(e, 0)), Some(at(e, 1))]
+}
+
+/// Matches `path` against a template holding at most one `*` (one path component); returns the
+/// remainder of the path after the template.
+fn match_prefix<'a>(path: &'a str, tmpl: &str) -> Option<&'a str> {
+    match tmpl.split_once('*') {
+        None => path.strip_prefix(tmpl),
+        Some((pre, post)) => {
+            let rest = path.strip_prefix(pre)?;
+            let idx = rest.find(post)?;
+            if rest[..idx].contains('/') {
+                None
+            } else {
+                Some(&rest[idx + post.len()..])
+            }
+        }
+    }
+}
+
+fn elem_map_path<T: Battery>(path: &str, own: &[&str], elem_at: &[&str]) -> bool {
+    own.contains(&path) || elem_at.iter().any(|t| match_prefix(path, t).map_or(false, T::is_map_path))
+}
+
+fn elem_opaque_path<T: Battery>(path: &str, elem_at: &[&str]) -> bool {
+    elem_at.iter().any(|t| match_prefix(path, t).map_or(false, |r| (T::VALUE_BODY && r.is_empty()) || T::is_opaque_path(r)))
+}
+
+/// Collections of T in every legal placement.
+#[derive(Form, Debug, PartialEq, Clone)]
+pub struct Multi<T> {
+    #[form(header_body)]
+    pub hb: Vec<T>,
+    #[form(header)]
+    pub hm: HashMap<i32, T>,
+    #[form(header)]
+    pub ho: Option<T>,
+    #[form(attr)]
+    pub av: Vec<T>,
+    #[form(attr)]
+    pub ao: Option<T>,
+    pub sv: Vec<T>,
+    pub sm: HashMap<i32, T>,
+    pub so: Option<T>,
+}
+
+const MULTI_ELEMS: [&str; 8] = ["@Multi/item[0]/item[*]/", "@Multi/hm:/*:/", "@Multi/ho:/", "@av/item[*]/", "@ao/", "sv:/item[*]/", "sm:/*:/", "so:/"];
+
+impl<T: Battery> Multi<T> {
+    fn empty() -> Self {
+        Multi { hb: vec![], hm: HashMap::new(), ho: None, av: vec![], ao: None, sv: vec![], sm: HashMap::new(), so: None }
+    }
+}
+
+impl<T: Battery> Battery for Multi<T> {
+    const NAME: &'static str = "Multi";
+    const COVERS: &'static str = "";
+    const WRAPPER: bool = true;
+    fn name() -> String {
+        format!("Multi<{}>", T::name())
+    }
+    fn covers() -> String {
+        format!("Vec (0-3 elements) / HashMap<i32,_> (2-3 entries) / Option of {} as header_body, header slot, attr and slot", T::name())
+    }
+    fn is_map_path(path: &str) -> bool {
+        elem_map_path::<T>(path, &["@Multi/hm:/", "sm:/"], &MULTI_ELEMS)
+    }
+    fn is_opaque_path(path: &str) -> bool {
+        elem_opaque_path::<T>(path, &MULTI_ELEMS)
+    }
+    /// The empty wrapper, every single field set to each non-empty pool value, and everything set.
+    fn instances(p: &Pools) -> Vec<Self> {
+        let e = elems::<T>(p);
+        let (vs, ms, os) = (vec_pool(&e), map_pool(&e), opt_pool(&e));
+        let mut out = vec![Self::empty()];
+        for v in &vs[1..] {
+            out.push(Multi { hb: v.clone(), ..Self::empty() });
+            out.push(Multi { av: v.clone(), ..Self::empty() });
+            out.push(Multi { sv: v.clone(), ..Self::empty() });
+        }
+        for m in &ms[1..] {
+            out.push(Multi { hm: m.clone(), ..Self::empty() });
+            out.push(Multi { sm: m.clone(), ..Self::empty() });
+        }
+        for o in &os[1..] {
+            out.push(Multi { ho: o.clone(), ..Self::empty() });
+            out.push(Multi { ao: o.clone(), ..Self::empty() });
+            out.push(Multi { so: o.clone(), ..Self::empty() });
+        }
+        out.push(Multi { hb: vs[2].clone(), hm: ms[1].clone(), ho: os[1].clone(), av: vs[2].clone(), ao: os[2].clone(), sv: vs[3].clone(), sm: ms[2].clone(), so: os[1].clone() });
+        out
+    }
+    fn normal(&self) -> Self {
+        let nv = |v: &Vec<T>| v.iter().map(|x| x.normal()).collect::<Vec<T>>();
+        let nm = |m: &HashMap<i32, T>| m.iter().map(|(k, x)| (*k, x.normal())).collect::<HashMap<i32, T>>();
+        let no = |o: &Option<T>| o.as_ref().map(|x| x.normal());
+        Multi { hb: nv(&self.hb), hm: nm(&self.hm), ho: no(&self.ho), av: nv(&self.av), ao: no(&self.ao), sv: nv(&self.sv), sm: nm(&self.sm), so: no(&self.so) }
+    }
+}
+
+/// T itself in every placement, twice as a slot (one recognizer type used several times).
+#[derive(Form, Debug, PartialEq, Clone)]
+pub struct Places<T> {
+    #[form(header_body)]
+    pub e: T,
+    #[form(header)]
+    pub d: T,
+    #[form(attr)]
+    pub c: T,
+    pub a: T,
+    pub b: T,
+}
+
+const PLACES_ELEMS: [&str; 5] = ["@Places/item[0]/", "@Places/d:/", "@c/", "a:/", "b:/"];
+
+impl<T: Battery> Battery for Places<T> {
+    const NAME: &'static str = "Places";
+    const COVERS: &'static str = "";
+    const WRAPPER: bool = true;
+    fn name() -> String {
+        format!("Places<{}>", T::name())
+    }
+    fn covers() -> String {
+        format!("{} as header_body, header slot, attr and two slots of one record", T::name())
+    }
+    fn is_map_path(path: &str) -> bool {
+        elem_map_path::<T>(path, &[], &PLACES_ELEMS)
+    }
+    fn is_opaque_path(path: &str) -> bool {
+        elem_opaque_path::<T>(path, &PLACES_ELEMS)
+    }
+    fn instances(p: &Pools) -> Vec<Self> {
+        let x = elems::<T>(p);
+        let all = |i: usize| Places { e: at(&x, i), d: at(&x, i), c: at(&x, i), a: at(&x, i), b: at(&x, i) };
+        let mut out = vec![all(0)];
+        for i in 1..x.len().min(3) {
+            out.push(Places { e: at(&x, i), ..all(0) });
+            out.push(Places { d: at(&x, i), ..all(0) });
+            out.push(Places { c: at(&x, i), ..all(0) });
+            out.push(Places { a: at(&x, i), ..all(0) });
+            out.push(Places { b: at(&x, i), ..all(0) });
+        }
+        if x.len() > 1 {
+            out.push(all(1));
+            out.push(Places { e: at(&x, 3), d: at(&x, 2), c: at(&x, 1), a: at(&x, 0), b: at(&x, 3) });
+        }
+        out
+    }
+    fn normal(&self) -> Self {
+        Places { e: self.e.normal(), d: self.d.normal(), c: self.c.normal(), a: self.a.normal(), b: self.b.normal() }
+    }
+}
+
+/// T and collections of T as the body of a record (enum variants: their recognizers are created
+/// per read, the element recognizers inside are still re-used).
+#[derive(Form, Debug, PartialEq, Clone)]
+pub enum Bodies<T> {
+    V {
+        #[form(header)]
+        n: i32,
+        #[form(body)]
+        v: Vec<T>,
+    },
+    M {
+        #[form(body)]
+        m: HashMap<i32, T>,
+    },
+    O {
+        #[form(body)]
+        o: Option<T>,
+    },
+    P(#[form(header_body)] T, #[form(body)] T),
+}
+
+const BODIES_ELEMS: [&str; 4] = ["item[*]/", "*:/", "", "@P/"];
+
+impl<T: Battery> Battery for Bodies<T> {
+    const NAME: &'static str = "Bodies";
+    const COVERS: &'static str = "";
+    const WRAPPER: bool = true;
+    fn name() -> String {
+        format!("Bodies<{}>", T::name())
+    }
+    fn covers() -> String {
+        format!("Vec / HashMap<i32,_> / Some / {} itself as the body of an enum variant, {} as header_body", T::name(), T::name())
+    }
+    fn is_map_path(path: &str) -> bool {
+        elem_map_path::<T>(path, &[""], &BODIES_ELEMS)
+    }
+    fn is_opaque_path(path: &str) -> bool {
+        elem_opaque_path::<T>(path, &BODIES_ELEMS)
+    }
+    fn instances(p: &Pools) -> Vec<Self> {
+        let x = elems::<T>(p);
+        let mut out = vec![];
+        for (i, v) in vec_pool(&x).into_iter().enumerate() {
+            out.push(Bodies::V { n: i as i32, v });
+        }
+        for m in map_pool(&x) {
+            out.push(Bodies::M { m });
+        }
+        // `None` as a body is the known defect D2 (see BodyOpt); only `Some` here
+        for o in opt_pool(&x).into_iter().skip(1) {
+            out.push(Bodies::O { o });
+        }
+        out.push(Bodies::P(at(&x, 0), at(&x, 0)));
+        out.push(Bodies::P(at(&x, 1), at(&x, 2)));
+        out
+    }
+    fn normal(&self) -> Self {
+        match self {
+            Bodies::V { n, v } => Bodies::V { n: *n, v: v.iter().map(|x| x.normal()).collect() },
+            Bodies::M { m } => Bodies::M { m: m.iter().map(|(k, x)| (*k, x.normal())).collect() },
+            Bodies::O { o } => Bodies::O { o: o.as_ref().map(|x| x.normal()) },
+            Bodies::P(a, b) => Bodies::P(a.normal(), b.normal()),
+        }
     }
 }
